@@ -185,6 +185,30 @@ class Explorer(object):
                 if z3.is_int_value(val) or z3.is_rational_value(val) or z3.is_true(val) or z3.is_false(val):
                     w.append((v, val))
             path.witness = w
+        elif r == z3.unknown:
+            # second attempt in a fresh context (nlsat's variable order follows the AST numbering of the context; the
+            # same hypotheses are often decided at once there), values carried over by name
+            try:
+                ctx = z3.Context()
+                s2 = z3.Solver(ctx=ctx)
+                s2.set("timeout", 60000)
+                s2.from_string(self._solver.to_smt2())
+                if s2.check() == z3.sat:
+                    m2 = s2.model()
+                    byname = {d.name(): m2[d] for d in m2.decls() if d.arity() == 0}
+                    w = []
+                    for v in self._inputs:
+                        val = byname.get(v.decl().name())
+                        if val is None:
+                            continue
+                        if z3.is_int_value(val):
+                            w.append((v, z3.IntVal(val.as_long())))
+                        elif z3.is_rational_value(val):
+                            w.append((v, z3.RealVal("%d/%d" % (val.numerator_as_long(), val.denominator_as_long()))))
+                    path.witness = w or None
+                    path.final_check = "sat"
+            except Exception:  # noqa -- the twin then carries the unpinned query
+                pass
 
     def pow_theory(self):
         pt = self._path.notes.get("_pow_theory")
